@@ -103,3 +103,35 @@ def update_in_place(rng, arr, scale=None):
         return "translated and one death moved"
     arr[:] = arr[::-1].copy(); arr[0, 1] += 0.75 * sc
     return "rows reversed and one death moved"
+
+
+
+def with_extra_columns(rng, arr):
+    """the documented Mx(>=2) form of bottleneck / wasserstein / the matching plots: birth, death and further columns that are to be
+    ignored (homology dimension, multiplicity, ...)"""
+    a = np.asarray(arr, float).reshape(-1, 2)
+    k = int(rng.integers(1, 3))
+    extra = np.column_stack([rng.integers(0, 3, len(a)).astype(float) if rng.random() < 0.6 else rng.normal(0, 50, len(a)) for _ in range(k)]) \
+        if len(a) else np.zeros((0, k))
+    return np.column_stack([a, extra])
+
+
+def as_rows(rng, arr, dtype=None):
+    """a diagram as a Python container of rows: list of 1-D arrays (what `list(dgm)` or a filtering comprehension gives), tuple of
+    tuples, list of lists; optionally with the rows in another dtype. returns (container, name)"""
+    a = np.asarray(arr) if dtype is None else np.asarray(arr).astype(dtype)
+    how = str(rng.choice(["list-of-row-arrays", "tuple-of-tuples", "list-of-lists", "list-of-row-arrays"]))
+    if how == "list-of-row-arrays":
+        return list(a), how
+    if how == "tuple-of-tuples":
+        return tuple(tuple(r) for r in a.tolist()), how
+    return a.tolist(), how
+
+
+def scalar_form(rng, x):
+    """a numeric parameter in another numeric type: an integral value as int / numpy integer, any value as numpy floating scalar"""
+    x = float(x)
+    opts = [np.float64(x)]
+    if x == int(x) and abs(x) < 2 ** 31:
+        opts += [int(x), np.int64(int(x)), np.int32(int(x))]
+    return opts[int(rng.integers(0, len(opts)))]
